@@ -1,1 +1,3 @@
 import XPathV.Theorems.C01
+#print axioms XPathV.Theorems.C01.axis_table_ok
+#print axioms XPathV.Theorems.C01.shortcut_condition_ok
